@@ -330,8 +330,16 @@ def stepEv (c : Cfg) (s : St) (t : Nat) : List String :=
   | .rBlocked => []
   | .done => []
 
+/-- schedule flag `~` on a thread parked in the futex: `futex_wait` returns -1/EINTR although
+nobody woke it (a signal without SA_RESTART — legal Linux behaviour). `muggle_sync_wait`'s result
+is ignored by `ring_buffer.c`: the reader goes round its loop and re-checks the cursor. -/
+def spurSt (c : Cfg) (s : St) (t : Nat) : Option St :=
+  if s.pc t = .rBlocked then some { s with pc := upd s.pc t (afterFutex c) } else none
+
 def step (c : Cfg) (s : St) (tok : Tok) : Option (St × List String) :=
-  (stepSt c s tok.tid).map fun s' => (s', stepEv c s tok.tid)
+  if tok.flag = .wake then
+    (spurSt c s tok.tid).map fun s' => (s', [s!"T{tok.tid} futex-resume cursor spurious"])
+  else (stepSt c s tok.tid).map fun s' => (s', stepEv c s tok.tid)
 
 /-! ## what the harness reports at the end -/
 
